@@ -11,8 +11,9 @@
 //!   two:j          append 1..k, commit(j), commit(k)           - all k! orders
 //!   restart:j      append 1..k, commit(j), run them, restart (a new
 //!                  ClusterStorage on the same log), commit(k)  - all (k-j)! orders
-//!   crash          append 1..k, commit(k), the process "dies" before any task
-//!                  ran (parked tasks abandoned), restart       - all k! orders
+//!   crash          append 1..k, commit(k), the process dies before any task ran
+//!                  (its whole runtime is dropped), a new runtime and new server
+//!                  components start on the same directory        - all k! orders
 //!
 //! Oracle (only what the statement says): the sequence of log indexes whose
 //! execution completed is 1..k in increasing order, each exactly once; the
@@ -261,20 +262,57 @@ fn run_scenario(sc: &Scenario, base: &Snapshot, scratch: &Scratch, stats: &Stats
             }
             "crash" => {
                 server.cluster.raft.write().await.storage.commit(base_index + k).await.map_err(|e| format!("commit: {}", e.description))?;
-                if !wait_until(FINISH_WAIT_MS, || verif::gate_arrived().len() as u64 >= 1).await {
-                    notes.push("no task reached the gate before the crash".to_string());
+                // let every task the commit started reach the gate, then the process dies (see below)
+                if !wait_until(FINISH_WAIT_MS, || verif::gate_arrived().len() as u64 >= k).await {
+                    notes.push(format!("only {:?} reached the gate before the crash", verif::gate_arrived()));
                 }
-                // the process dies: whatever is parked never runs
-                tokio::time::sleep(Duration::from_millis(5)).await;
-                verif::gate_abandon();
-                let fresh = crate::cluster::new(&server.config, &server.server_db, &server.cluster_log, &server.db_pool).await.map_err(|e| format!("restart: {}", e.description))?;
-                server.cluster = fresh;
-                subscription = server.cluster.raft.read().await.storage.subscribe().await;
-                receivers.clear();
+                return Ok(Err((base_index, notes)));
             }
             _ => return Err("bad mode".to_string()),
         }
 
+        finish(sc, server, subscription, receivers, exec_order, expect_parked, base_index, notes, stats).await.map(Ok)
+    });
+    rt.shutdown_timeout(Duration::from_millis(200));
+    let r: Result<Result<Obs, (u64, Vec<String>)>, String> = r;
+    let out = match r {
+        Err(e) => Err(e),
+        Ok(Ok(obs)) => Ok(obs),
+        Ok(Err((base_index, notes))) => {
+            // mode crash: the runtime with every task of the old process is gone; a new process
+            // (new runtime, all server components rebuilt from the same data directory) starts.
+            // ClusterStorage::new re-executes the committed entries that are not marked executed.
+            verif::gate_enable(true);
+            let rt2 = rt_multi(4);
+            let r2 = rt2.block_on(async {
+                let server = Server::start_opts(&data, false).await?;
+                let subscription = server.cluster.raft.read().await.storage.subscribe().await;
+                let expect: Vec<u64> = (1..=sc.k as u64).collect();
+                finish(sc, server, subscription, vec![], vec![], expect, base_index, notes, stats).await
+            });
+            rt2.shutdown_timeout(Duration::from_millis(200));
+            r2
+        }
+    };
+    verif::gate_enable(false);
+    out
+}
+
+/// Releases the parked execution tasks in the scenario's order and observes the outcome.
+#[allow(clippy::too_many_arguments)]
+async fn finish(
+    sc: &Scenario,
+    server: Server,
+    mut subscription: tokio::sync::broadcast::Receiver<u64>,
+    receivers: Vec<tokio::sync::oneshot::Receiver<ServerResult<(u64, ClusterActionResult)>>>,
+    mut exec_order: Vec<i64>,
+    expect_parked: Vec<u64>,
+    base_index: u64,
+    notes: Vec<String>,
+    stats: &Stats,
+) -> Result<Obs, String> {
+    let k = sc.k as u64;
+    let release_wait_ms = if sc.k <= 3 { RELEASE_WAIT_MS * 3 } else { RELEASE_WAIT_MS };
         // release in the given order; an index that is not parked (a serialising
         // implementation has not started it yet) is retried in later passes
         let mut pending: Vec<u64> = sc.order.clone();
@@ -283,7 +321,7 @@ fn run_scenario(sc: &Scenario, base: &Snapshot, scratch: &Scratch, stats: &Stats
         }
         // give independent tasks the time to all reach the gate (they do at once in the unchanged code)
         let want = pending.len();
-        wait_until(RELEASE_WAIT_MS * 3, || verif::gate_parked().len() >= want).await;
+        wait_until(release_wait_ms * 3, || verif::gate_parked().len() >= want).await;
         let started = Instant::now();
         while !pending.is_empty() && started.elapsed() < Duration::from_millis(FINISH_WAIT_MS) {
             let parked = verif::gate_parked();
@@ -311,7 +349,7 @@ fn run_scenario(sc: &Scenario, base: &Snapshot, scratch: &Scratch, stats: &Stats
                     Ok(Err(_)) => break,
                     Err(_) => {}
                 }
-                if t.elapsed() > Duration::from_millis(RELEASE_WAIT_MS) {
+                if t.elapsed() > Duration::from_millis(release_wait_ms) {
                     break;
                 }
             }
@@ -353,10 +391,6 @@ fn run_scenario(sc: &Scenario, base: &Snapshot, scratch: &Scratch, stats: &Stats
         let state = server.observe().await?;
         server.stop();
         Ok(Obs { exec_order, results, unexecuted, state, notes })
-    });
-    verif::gate_enable(false);
-    rt.shutdown_timeout(Duration::from_millis(200));
-    r
 }
 
 fn scenarios_for(set: &str, k: usize) -> Vec<Scenario> {
